@@ -52,9 +52,13 @@ var c11Types = []string{"b", "i", "i32", "u16", "f", "f32", "s", "pi", "ps", "si
 
 // c11Key: "", a digit, "-", a letter, a huge number or the largest int
 func c11Key() string {
-	if vParam("c11keys", 0) == 1 {
+	switch vParam("c11keys", 0) {
+	case 1:
 		// small concrete keys only
 		return []string{"", "0", "1", "2", "a"}[vChoose(5)]
+	case 2:
+		// concrete keys of every kind
+		return []string{"", "0", "1", "2", "a", "-", "-1", "1001", "9223372036854775807", "99999999999999999999"}[vChoose(10)]
 	}
 	switch vChoose(6) {
 	case 0:
@@ -107,9 +111,13 @@ func c11Prior() vCfg {
 func HarnessC11Decode() {
 	c := c11Prior()
 	typ := c11Types[vChoose(len(c11Types))]
-	if vParam("c11containers", 0) == 1 {
+	switch vParam("c11containers", 0) {
+	case 1:
 		// slice, array and map fields only (where several points of one type interact)
 		typ = []string{"si", "ss", "af", "m"}[vChoose(4)]
+	case 2:
+		// every other kind of field
+		typ = []string{"b", "i", "i32", "u16", "f", "f32", "s", "pi", "ps", "st", "pst", "zz"}[vChoose(12)]
 	}
 	var pts []Point
 	for i, n := 0, 1+vChoose(vParam("points", 2)); i < n; i++ {
